@@ -41,7 +41,7 @@ def one(d: pathlib.Path):
         if subprocess.run(["git", "-C", str(wt), "apply", pd], capture_output=True).returncode:
             how = "3way"
             if subprocess.run(["git", "-C", str(wt), "apply", "--3way", pd], capture_output=True).returncode:
-                subprocess.run(["git", "-C", str(wt), "checkout", "--", "."], capture_output=True)
+                subprocess.run(["git", "-C", str(wt), "reset", "-q", "--hard"], capture_output=True)   # drop conflict markers
                 how = "fuzz"
                 if subprocess.run(["patch", "-p1", "--fuzz=3", "-s", "-i", pd], cwd=wt, capture_output=True).returncode:
                     meta["revalidated"] = {"head": HEAD, "patch": "does-not-apply"}
